@@ -1497,8 +1497,21 @@ impl<R: std::io::Seek> Decoder<R> {
                         ..
                     }) => {
                         assert!(*sample_offset <= sample);
-                        self.reader
-                            .seek(SeekFrom::Start(frames_start + byte_offset))?;
+                        // the table is untrusted: a point beyond the stream's total
+                        // or an offset that does not fit the file is an error
+                        if self
+                            .blocks
+                            .streaminfo()
+                            .total_samples
+                            .is_some_and(|total| *sample_offset > total.get())
+                        {
+                            return Err(Error::InvalidSeekTablePoint);
+                        }
+                        self.reader.seek(SeekFrom::Start(
+                            frames_start
+                                .checked_add(*byte_offset)
+                                .ok_or(Error::InvalidSeekTablePoint)?,
+                        ))?;
                         self.current_sample = *sample_offset;
                         Ok(*sample_offset)
                     }
